@@ -90,6 +90,9 @@ def make_scenario(rng, k, nmax=16, regimes=(4, 6), two_phase=True, fields=FIELD_
     if np.linalg.det(sc["F0"]) <= 0.1:
         sc["F0"] = np.eye(3)
     sc["field_kind"] = fields[(k // 3) % len(fields)]
+    # params["number_of_grains"] need not equal the mineral's own grain count (a Mineral built with n_grains=... and driven with
+    # the default parameter record): the mineral's n_grains is what counts
+    sc["params_n"] = sc["n"] if k % 2 == 0 else 3500
     if sc["field_kind"] == "ends_vanish":
         # every partition point is a zero of sin(w t): the velocity gradient vanishes at both ends of every update interval
         sc["t0"] = 0.0
@@ -98,7 +101,9 @@ def make_scenario(rng, k, nmax=16, regimes=(4, 6), two_phase=True, fields=FIELD_
 
 
 def scenario_json(sc):
-    d = {k: (v.tolist() if hasattr(v, "tolist") else v) for k, v in sc.items() if k != "field"}
+    d = {k: (v.tolist() if hasattr(v, "tolist") else v) for k, v in sc.items() if k not in ("field", "get_regime")}
+    if sc.get("get_regime") is not None:
+        d["get_regime"] = getattr(sc["get_regime"], "desc", "callable")
     d["field"] = sc["field"].to_json()
     return d
 
@@ -112,7 +117,7 @@ def params_of(sc):
         fr = (1.0,)
     return impl.default_params(phase_assemblage=asm, phase_fractions=fr, stress_exponent=sc["p"], deformation_exponent=sc["nexp"],
                                gbm_mobility=sc["Mob"], gbs_threshold=sc["chi"], nucleation_efficiency=sc["lam"],
-                               number_of_grains=sc["n"])
+                               number_of_grains=sc.get("params_n", sc["n"]))
 
 
 def build_mineral(sc):
@@ -140,7 +145,7 @@ def run_scenario(sc, mineral=None, record=True, times=None, **kw):
         rec.__enter__()
     try:
         for a, b in zip(ts[:-1], ts[1:]):
-            F = m.update_orientations(params, F, fld, (a, b, fld.pos), **kw)
+            F = m.update_orientations(params, F, fld, (a, b, fld.pos), get_regime=sc.get("get_regime"), **kw)
             Fs.append(np.array(F))
     finally:
         if record:
